@@ -24,17 +24,22 @@ def main():
     name, prop, patch, demo = sys.argv[1:5]
     checks = [prop]
     needs = ""
+    demo_flags = ""
     for a in sys.argv[5:]:
+        if a.startswith("--demo-flags="):
+            demo_flags = a.split("=", 1)[1]
         if a.startswith("--checks="):
             checks = a.split("=", 1)[1].split(",")
         if a.startswith("--needs="):
             needs = a.split("=", 1)[1]
     out = os.path.join(VERIF, "seeded", name)
     os.makedirs(out, exist_ok=True)
-    shutil.copy(patch, os.path.join(out, "patch.diff"))
+    if os.path.abspath(patch) != os.path.join(out, "patch.diff"):
+        shutil.copy(patch, os.path.join(out, "patch.diff"))
     demo_name = os.path.basename(demo)
-    shutil.copy(demo, os.path.join(out, demo_name))
-    meta = {"name": name, "breaks_property": prop, "needs_to_manifest": needs, "ran": []}
+    if os.path.abspath(demo) != os.path.join(out, demo_name):
+        shutil.copy(demo, os.path.join(out, demo_name))
+    meta = {"name": name, "breaks_property": prop, "needs_to_manifest": needs, "demo_cargo_flags": demo_flags, "ran": []}
 
     wt = "/tmp/wt/verify_" + name
     sh(f"git -C /repo worktree remove --force {wt}")
@@ -45,9 +50,9 @@ def main():
             if is_sh:
                 return sh(f"bash {os.path.join(out, demo_name)}", cwd=wt)
             os.makedirs(os.path.join(wt, "tests"), exist_ok=True)
-            shutil.copy(demo, os.path.join(wt, "tests", "seed_demo.rs"))
-            r = sh("cargo test --offline --test seed_demo 2>&1 | tail -15", cwd=wt)
-            ok = ("test result: ok" in r[1]) and ("FAILED" not in r[1]) and ("error" not in r[1].split("test result")[0][-200:] if "test result" in r[1] else False)
+            shutil.copy(os.path.join(out, demo_name), os.path.join(wt, "tests", "seed_demo.rs"))
+            r = sh(f"cargo test --offline {demo_flags} --test seed_demo 2>&1 | tail -15", cwd=wt)
+            ok = ("test result: ok" in r[1]) and ("test result: FAILED" not in r[1]) and ("could not compile" not in r[1])
             os.remove(os.path.join(wt, "tests", "seed_demo.rs"))
             return (0 if ok else 1), r[1]
         rc0, o0 = run_demo()
